@@ -1,6 +1,7 @@
 package main
 
 import (
+	"go/token"
 	"fmt"
 	"sort"
 	"strings"
@@ -47,11 +48,11 @@ func (c *Ctx) walletConfigFlow() {
 					if tn, n, ok := fieldOf(st.Addr); ok && tn == "wallet.Options" {
 						got = append(got, n)
 						for _, l := range leaves(st.Val) {
-							if l == f.Params[0].Name() {
-								okSrc = true
+							if l == "^0" {
+								okSrc = true // the closure's only captured variable: the option's argument
 							}
 						}
-						if fv, ok := st.Val.(*ssa.FreeVar); ok && fv.Name() == f.Params[0].Name() {
+						if _, ok := st.Val.(*ssa.FreeVar); ok {
 							okSrc = true
 						}
 					}
@@ -67,7 +68,7 @@ func (c *Ctx) walletConfigFlow() {
 				if _, isFn := cl.Call.Value.(*ssa.Function); !isFn {
 					if _, isB := cl.Call.Value.(*ssa.Builtin); !isB && len(cl.Call.Args) == 1 {
 						ls := leaves(cl.Call.Value)
-						if len(ls) == 1 && ls[0] == "opts" {
+						if len(ls) == 1 && ls[0] == "#0" {
 							if _, isAl := cl.Call.Args[0].(*ssa.Alloc); isAl {
 								okCall = true
 							}
@@ -86,7 +87,7 @@ func (c *Ctx) walletConfigFlow() {
 		}
 		for _, cl := range callsTo(f, modPath+"/wallet.newWallet") {
 			got := []string{strings.Join(leaves(cl.Call.Args[0]), ","), strings.Join(leaves(cl.Call.Args[1]), ","), strings.Join(leaves(cl.Call.Args[2]), ",")}
-			want := []string{"key", "ver", "networkGlobalID,subWalletId,workchain"}
+			want := []string{px("key,ver,networkGlobalID,workchain,subWalletId", "key"), px("key,ver,networkGlobalID,workchain,subWalletId", "ver"), px("key,ver,networkGlobalID,workchain,subWalletId", "networkGlobalID,subWalletId,workchain")}
 			c.check(fmt.Sprint(got) == fmt.Sprint(want), R, name+" passes key, version and all three options to newWallet", cl.Pos(), fmt.Sprint(got),
 				fmt.Sprintf("%s calls newWallet(key<-{%s}, ver<-{%s}, options<-{%s}); every one of key, ver, networkGlobalID, workchain, subWalletId must reach it", name, got[0], got[1], got[2]))
 		}
@@ -100,28 +101,44 @@ func (c *Ctx) walletConfigFlow() {
 		// an option is applied exactly when its pointer parameter is non-nil (no further condition on the value)
 		for _, q := range []string{"WithWorkchain", "WithNetworkGlobalID", "WithSubWalletID"} {
 			for _, cl := range callsTo(f, modPath+"/wallet."+q) {
+				// the argument's parameter, by position
+				argPos := strings.Join(leaves(cl.Call.Args[0]), ",")
 				var conds []string
+				okG := true
+				nNil := 0
 				for _, ft := range factsAt(f, cl.Block()) {
 					conds = append(conds, fmt.Sprintf("%s=%v", shape(ft.Cond, 3), ft.Truth))
+					bo, isBo := ft.Cond.(*ssa.BinOp)
+					if !isBo || !(isNilConst(bo.Y) || isNilConst(bo.X)) {
+						okG = false
+						continue
+					}
+					v := bo.X
+					if isNilConst(bo.X) {
+						v = bo.Y
+					}
+					pp, isP := v.(*ssa.Parameter)
+					nonNil := (bo.Op == token.NEQ) == ft.Truth
+					if !isP || paramPos(pp) != argPos || !nonNil {
+						okG = false
+						continue
+					}
+					nNil++
 				}
-				sort.Strings(conds)
-				want := "[]"
-				switch q {
-				case "WithNetworkGlobalID":
-					want = "[(networkGlobalID!=nil)=true]"
-				case "WithSubWalletID":
-					want = "[(subWalletId!=nil)=true]"
+				wantNil := 1
+				if q == "WithWorkchain" {
+					wantNil = 0 // a value parameter: always applied
 				}
-				c.check(fmt.Sprint(conds) == want, R, name+" applies "+q+" exactly when its parameter is given", cl.Pos(), fmt.Sprint(conds), fmt.Sprintf("%s applies %s under %v; every address API applies it under %s, otherwise the APIs disagree for some parameter values", name, q, conds, want))
+				c.check(okG && nNil == wantNil, R, name+" applies "+q+" exactly when its parameter is given", cl.Pos(), fmt.Sprint(conds), fmt.Sprintf("%s applies %s under %v; every address API applies an option exactly when its own pointer parameter is non-nil (no condition on the value), otherwise the APIs disagree for some parameter values", name, q, conds))
 			}
 		}
-		wantP := map[string]string{"WithWorkchain": "workchain", "WithNetworkGlobalID": "networkGlobalID", "WithSubWalletID": "subWalletId"}
+		wantP := pxMap("key,ver,networkGlobalID,workchain,subWalletId", map[string]string{"WithWorkchain": "workchain", "WithNetworkGlobalID": "networkGlobalID", "WithSubWalletID": "subWalletId"})
 		c.check(fmt.Sprint(pairs) == fmt.Sprint(wantP), R, name+" wraps each parameter in its own option", f.Pos(), fmt.Sprint(pairs), fmt.Sprintf("%s builds options %v, expected %v", name, pairs, wantP))
 	}
 	if f := c.mustFn(R, "wallet", "New"); f != nil {
 		for _, cl := range callsTo(f, modPath+"/wallet.newWallet") {
 			got := []string{strings.Join(leaves(cl.Call.Args[0]), ","), strings.Join(leaves(cl.Call.Args[1]), ","), strings.Join(leaves(cl.Call.Args[2]), ",")}
-			c.check(fmt.Sprint(got) == "[key ver opts]", R, "New passes the public key of its key, the version and the options to newWallet", cl.Pos(), fmt.Sprint(got), fmt.Sprintf("New calls newWallet with arguments computed from %v, expected [key ver opts]", got))
+			c.check(fmt.Sprint(got) == "[#0 #1 #3]", R, "New passes the public key of its key, the version and the options to newWallet", cl.Pos(), fmt.Sprint(got), fmt.Sprintf("New calls newWallet with arguments computed from %v, expected [key ver opts]", got))
 		}
 		okA := false
 		for _, m := range literalFields(f, "Wallet") {
@@ -133,7 +150,7 @@ func (c *Ctx) walletConfigFlow() {
 			}
 		}
 		c.check(okA, R, "New stores the address generated by the implementation it built", f.Pos(), "address: w.generateAddress()", "New no longer stores w.generateAddress() as the wallet address")
-		c.literalIs(R, f, "Wallet", 1, map[string]string{"address": "key,opts,ver", "key": "key", "ver": "ver", "intWallet": "key,opts,ver", "blockchain": "blockchain", "msgDefaultLifetime": "opts"})
+		c.literalIs(R, f, "Wallet", 1, pxMap("key,ver,blockchain,opts", map[string]string{"address": "key,opts,ver", "key": "key", "ver": "ver", "intWallet": "key,opts,ver", "blockchain": "blockchain", "msgDefaultLifetime": "opts"}))
 	}
 	// 3. newWallet: version -> implementation
 	if f := c.mustFn(R, "wallet", "newWallet"); f != nil {
@@ -146,12 +163,12 @@ func (c *Ctx) walletConfigFlow() {
 		for _, q := range []string{"newWalletV1V2", "newWalletV3", "newWalletV4", "NewWalletV5Beta", "newWalletHighloadV2"} {
 			for _, cl := range callsTo(f, modPath+"/wallet."+q) {
 				a := []string{strings.Join(leaves(cl.Call.Args[0]), ","), strings.Join(leaves(cl.Call.Args[1]), ","), strings.Join(leaves(cl.Call.Args[2]), ",")}
-				c.check(fmt.Sprint(a) == "[version key options]", R, "newWallet forwards (version, key, options) to "+q, cl.Pos(), fmt.Sprint(a), fmt.Sprintf("newWallet calls %s with arguments from %v", q, a))
+				c.check(fmt.Sprint(a) == "[#1 #0 #2]", R, "newWallet forwards (version, key, options) to "+q, cl.Pos(), fmt.Sprint(a), fmt.Sprintf("newWallet calls %s with arguments from %v", q, a))
 			}
 		}
 		for _, cl := range callsTo(f, modPath+"/wallet.NewWalletV5R1") {
 			a := []string{strings.Join(leaves(cl.Call.Args[0]), ","), strings.Join(leaves(cl.Call.Args[1]), ",")}
-			c.check(fmt.Sprint(a) == "[key options]", R, "newWallet forwards (key, options) to NewWalletV5R1", cl.Pos(), fmt.Sprint(a), fmt.Sprintf("newWallet calls NewWalletV5R1 with arguments from %v", a))
+			c.check(fmt.Sprint(a) == "[#0 #2]", R, "newWallet forwards (key, options) to NewWalletV5R1", cl.Pos(), fmt.Sprint(a), fmt.Sprintf("newWallet calls NewWalletV5R1 with arguments from %v", a))
 		}
 	}
 	// 4. constructors
@@ -166,8 +183,9 @@ func (c *Ctx) walletConfigFlow() {
 		{"NewWalletV5Beta", "walletV5Beta", map[string]string{"version": "version", "publicKey": "publicKey", "workchain": "opts.Workchain", "subWalletID": "opts.SubWalletID", "networkGlobalID": "opts.NetworkGlobalID"}},
 		{"NewWalletV5R1", "walletV5R1", map[string]string{"publicKey": "publicKey", "workchain": "opts.Workchain", "walletID": "opts.NetworkGlobalID,opts.Workchain", "isSignatureAllowed": ""}},
 	}
+	sigs := map[string]string{"newWalletV1V2": "ver,key,options", "newWalletV3": "ver,key,options", "newWalletV4": "version,publicKey,opts", "newWalletHighloadV2": "ver,key,options", "NewWalletV5Beta": "version,publicKey,opts", "NewWalletV5R1": "publicKey,opts"}
 	for _, k := range ctor {
-		c.literalIs(R, c.mustFn(R, "wallet", k.fn), k.typ, 1, k.want)
+		c.literalIs(R, c.mustFn(R, "wallet", k.fn), k.typ, 1, pxMap(sigs[k.fn], k.want))
 	}
 	c.subWalletSiblings(R)
 	// 4c. wallet implementations are immutable after construction
@@ -206,14 +224,14 @@ func (c *Ctx) walletConfigFlow() {
 	}
 	for _, k := range data {
 		f := c.mustFn(R, "wallet", k.recv+".generateStateInit")
-		c.literalIs(R, f, k.typ, 1, k.want)
+		c.literalIs(R, f, k.typ, 1, pxMap("w", k.want))
 		if f == nil {
 			continue
 		}
 		// the literal is what is marshalled with the wallet's own version
 		for _, cl := range callsTo(f, modPath+"/wallet.generateStateInit") {
 			ver := strings.Join(leaves(cl.Call.Args[0]), ",")
-			wantVer := "w.version"
+			wantVer := "#0.version"
 			if k.recv == "walletV5R1" {
 				wantVer = ""
 			}
@@ -238,7 +256,7 @@ func (c *Ctx) walletConfigFlow() {
 			data := vals2leaves(m["Data.Value.Value"])
 			ce := len(m["Code.Exists"]) == 1 && isTrue(m["Code.Exists"][0])
 			de := len(m["Data.Exists"]) == 1 && isTrue(m["Data.Exists"][0])
-			okv = code == "ver" && strings.Contains(data, "call:boc.NewCell") && ce && de && len(m["Library.Exists"]) == 0
+			okv = code == "#0" && strings.Contains(data, "call:boc.NewCell") && ce && de && len(m["Library.Exists"]) == 0
 			if !okv {
 				c.bad(R, "state-init = {code(ver), data}", f.Pos(), fmt.Sprintf("generateStateInit builds StateInit with code<-{%s} data<-{%s} code.Exists=%v data.Exists=%v", code, data, ce, de))
 			}
@@ -250,7 +268,7 @@ func (c *Ctx) walletConfigFlow() {
 		}
 		okM := false
 		for _, cl := range callsTo(f, modPath+"/tlb.Marshal") {
-			okM = strings.Join(leaves(cl.Call.Args[1]), ",") == "data"
+			okM = strings.Join(leaves(cl.Call.Args[1]), ",") == "#1"
 		}
 		c.check(okM, R, "the data cell is the marshalled data argument", f.Pos(), "tlb.Marshal(dataCell, data)", "generateStateInit no longer marshals its data argument into the data cell")
 	}
@@ -327,7 +345,7 @@ func (c *Ctx) walletAddressUnity() {
 		for _, cl := range callsTo(f, modPath+"/wallet.generateAddress") {
 			wc := strings.Join(leaves(cl.Call.Args[0]), ",")
 			si := derivesFrom(cl.Call.Args[1], callResult(modPath+"/wallet."+recv+".generateStateInit"), false)
-			okv = wc == "w.workchain" && si
+			okv = wc == "#0.workchain" && si
 		}
 		c.check(okv, R, recv+".generateAddress = generateAddress(w.workchain, own state-init)", f.Pos(), "hash of own generateStateInit() in w.workchain", recv+".generateAddress no longer hashes its own state-init in its own workchain")
 		c.delegatesTo(R, f, 1, []string{modPath + "/wallet.generateAddress"})
@@ -344,11 +362,11 @@ func (c *Ctx) walletAddressUnity() {
 			for _, v := range m["Address"] {
 				okA = derivesFrom(v, callResult(modPath+"/boc.Cell.Hash"), false)
 			}
-			okv = wc == "workchain" && okA
+			okv = wc == "#0" && okA
 		}
 		okM := false
 		for _, cl := range callsTo(f, modPath+"/tlb.Marshal") {
-			okM = strings.Join(leaves(cl.Call.Args[1]), ",") == "stateInit"
+			okM = strings.Join(leaves(cl.Call.Args[1]), ",") == "#1"
 		}
 		c.check(okv && okM, R, "address = (workchain, representation hash of the marshalled state-init)", f.Pos(), "AccountID{Workchain: workchain, Address: Hash(Marshal(stateInit))}", "generateAddress no longer returns the workchain argument with the representation hash of the marshalled state-init")
 	}
@@ -358,7 +376,7 @@ func (c *Ctx) walletAddressUnity() {
 	if f := c.mustFn(R, "wallet", "Wallet.GetAddress"); f != nil {
 		okv := false
 		for _, r := range returnsOf(f) {
-			okv = strings.Join(leaves(retVal(r, 0)), ",") == "w.address"
+			okv = strings.Join(leaves(retVal(r, 0)), ",") == "#0.address"
 		}
 		c.check(okv, R, "GetAddress returns the stored address", f.Pos(), "w.address", "Wallet.GetAddress no longer returns w.address")
 	}
@@ -429,7 +447,7 @@ func (c *Ctx) nextMessageParams() {
 					okT = strings.HasSuffix(mi.X.Type().String(), "."+dt)
 				}
 				ls := strings.Join(leaves(cl.Call.Args[0]), ",")
-				okSrc = strings.HasSuffix(ls, "AccountActive.StateInit.Data.Value.Value") && strings.HasPrefix(ls, "state.Account")
+				okSrc = strings.HasSuffix(ls, "AccountActive.StateInit.Data.Value.Value") && strings.HasPrefix(ls, "#1.Account")
 			}
 			c.check(okT && okSrc, R, recv+" reads the seqno from its own data layout in the active account's data cell", f.Pos(), dt+" from state.Account...AccountActive.StateInit.Data", fmt.Sprintf("%s.NextMessageParams decodes (own data type: %v, from the active account's data cell: %v)", recv, okT, okSrc))
 			var seq []string
@@ -518,14 +536,14 @@ func (c *Ctx) sendPipeline() {
 			okIni := derivesFrom(cl.Call.Args[5], callResult(modPath+"/wallet.wallet.NextMessageParams"), false)
 			_, n1, _ := fieldOfLoad(cl.Call.Args[2])
 			_, n2, _ := fieldOfLoad(cl.Call.Args[5])
-			c.check(okSeq && okIni && n1 == "Seqno" && n2 == "Init" && wait == "waitingConfirmation", R, "SendV2 forwards params.Seqno, params.Init and the confirmation wait", cl.Pos(), "RawSendV2(ctx, params.Seqno, _, msgs, params.Init, waitingConfirmation)", fmt.Sprintf("SendV2 calls RawSendV2 with seqno<-{%s}(%s) init<-{%s}(%s) wait<-{%s}", seq, n1, ini, n2, wait))
-			okMsgs := strings.Contains(strings.Join(leaves(cl.Call.Args[4]), ","), "messages")
+			c.check(okSeq && okIni && n1 == "Seqno" && n2 == "Init" && wait == "#2", R, "SendV2 forwards params.Seqno, params.Init and the confirmation wait", cl.Pos(), "RawSendV2(ctx, params.Seqno, _, msgs, params.Init, waitingConfirmation)", fmt.Sprintf("SendV2 calls RawSendV2 with seqno<-{%s}(%s) init<-{%s}(%s) wait<-{%s}", seq, n1, ini, n2, wait))
+			okMsgs := strings.Contains(strings.Join(leaves(cl.Call.Args[4]), ","), "#3")
 			c.check(okMsgs, R, "SendV2 forwards every requested message", cl.Pos(), "msgArray built from messages", "SendV2 no longer builds the raw messages from its messages argument")
 		}
 		okSt := false
 		allInstrs(f, func(_ *ssa.BasicBlock, in ssa.Instruction) {
 			if cl, ok := in.(*ssa.Call); ok && cl.Call.IsInvoke() && cl.Call.Method.Name() == "GetAccountState" {
-				okSt = derivesFrom(cl.Call.Args[1], callResult(modPath+"/wallet.Wallet.GetAddress"), false) || strings.Join(leaves(cl.Call.Args[1]), ",") == "w.address"
+				okSt = derivesFrom(cl.Call.Args[1], callResult(modPath+"/wallet.Wallet.GetAddress"), false) || strings.Join(leaves(cl.Call.Args[1]), ",") == "#0.address"
 			}
 			if cl, ok := in.(*ssa.Call); ok && cl.Call.IsInvoke() && cl.Call.Method.Name() == "NextMessageParams" {
 				c.check(derivesFrom(cl.Call.Args[0], func(v ssa.Value) bool {
@@ -544,10 +562,10 @@ func (c *Ctx) sendPipeline() {
 				if c2 := callOf(ex.Tuple); c2 != nil && c2.Call.IsInvoke() && c2.Call.Method.Name() == "createSignedMsgBodyCell" {
 					okB = true
 					b := []string{strings.Join(leaves(c2.Call.Args[0]), ","), strings.Join(leaves(c2.Call.Args[1]), ","), strings.Join(leaves(c2.Call.Args[2]), ",")}
-					c.check(fmt.Sprint(b) == "[w.key internalMessages seqno,validUntil]", R, "the body is signed with the wallet key over the given messages, seqno and expiry", c2.Pos(), fmt.Sprint(b), fmt.Sprintf("RawSendV2 calls createSignedMsgBodyCell with arguments from %v; expected [w.key internalMessages seqno,validUntil]", b))
+					c.check(fmt.Sprint(b) == "[#0.key #4 #2,#3]", R, "the body is signed with the wallet key over the given messages, seqno and expiry", c2.Pos(), fmt.Sprint(b), fmt.Sprintf("RawSendV2 calls createSignedMsgBodyCell with arguments from %v; expected [w.key internalMessages seqno,validUntil]", b))
 				}
 			}
-			c.check(fmt.Sprint(a) == "[w.address init]" && okB, R, "external message: dest = own address, init = given init, body = signed body", cl.Pos(), fmt.Sprint(a), fmt.Sprintf("RawSendV2 calls CreateExternalMessage with address<-{%s} init<-{%s} body-is-signed-body=%v", a[0], a[1], okB))
+			c.check(fmt.Sprint(a) == "[#0.address #5]" && okB, R, "external message: dest = own address, init = given init, body = signed body", cl.Pos(), fmt.Sprint(a), fmt.Sprintf("RawSendV2 calls CreateExternalMessage with address<-{%s} init<-{%s} body-is-signed-body=%v", a[0], a[1], okB))
 		}
 		// what is sent is the serialisation of the marshalled external message
 		okSend := false
@@ -564,7 +582,7 @@ func (c *Ctx) sendPipeline() {
 		// confirmation: a nil error after the send is returned only (a) when no wait was asked, or (b) on newSeqno > seqno
 		noWait, _ := passingEdges(f, requiredCheck{src: func(v ssa.Value) bool {
 			b, ok := v.(*ssa.BinOp)
-			return ok && b.Op.String() == "==" && strings.Join(leaves(b.X), ",") == "waitingConfirmation"
+			return ok && b.Op.String() == "==" && strings.Join(leaves(b.X), ",") == "#6"
 		}, kind: "bool"})
 		adv, _ := passingEdges(f, requiredCheck{src: func(v ssa.Value) bool {
 			b, ok := v.(*ssa.BinOp)
@@ -575,7 +593,7 @@ func (c *Ctx) sendPipeline() {
 			if ex, ok := b.X.(*ssa.Extract); ok {
 				c2 = callOf(ex.Tuple)
 			}
-			return c2 != nil && c2.Call.IsInvoke() && c2.Call.Method.Name() == "GetSeqno" && strings.Join(leaves(b.Y), ",") == "seqno"
+			return c2 != nil && c2.Call.IsInvoke() && c2.Call.Method.Name() == "GetSeqno" && strings.Join(leaves(b.Y), ",") == "#2"
 		}, kind: "bool"})
 		okC := len(noWait) == 1 && len(adv) == 1
 		n := 0
@@ -595,7 +613,7 @@ func (c *Ctx) sendPipeline() {
 		// GetSeqno is asked for the wallet's own address
 		allInstrs(f, func(_ *ssa.BasicBlock, in ssa.Instruction) {
 			if cl, ok := in.(*ssa.Call); ok && cl.Call.IsInvoke() && cl.Call.Method.Name() == "GetSeqno" {
-				c.check(strings.Join(leaves(cl.Call.Args[1]), ",") == "w.address", R, "confirmation polls the wallet's own seqno", cl.Pos(), "GetSeqno(ctx, w.address)", "RawSendV2 polls the seqno of an address other than the wallet's")
+				c.check(strings.Join(leaves(cl.Call.Args[1]), ",") == "#0.address", R, "confirmation polls the wallet's own seqno", cl.Pos(), "GetSeqno(ctx, w.address)", "RawSendV2 polls the seqno of an address other than the wallet's")
 			}
 		})
 	}
